@@ -212,6 +212,17 @@ Section Dyne.
   Definition dyne_mean (r : vec) (V sig : mat) (k : nat) (vm : vec) : vec :=
     reassemble_vec (cond_mean (chop_va r k) (chopB V k) (inv2 (madd (chopC V k) sig)) vm (chop_vc r k)) k.
 
+  (* specification side: the measured 2x2 block of the pre-measurement covariance and the textbook
+     conditional state on global (un-chopped) indices, W standing for (C + sigma)^-1 *)
+  Definition blockC (V : mat) (k : nat) : mat := fun a b => V (Nat.add (Nat.mul 2 k) a) (Nat.add (Nat.mul 2 k) b).
+  Definition textbook_cov (V W : mat) (k i j : nat) : K :=
+    let x := Nat.mul 2 k in let p := S (Nat.mul 2 k) in
+    V i j - (V i x * W 0 0 * V j x + V i x * W 0 1 * V j p + V i p * W 1 0 * V j x + V i p * W 1 1 * V j p).
+  Definition textbook_mean (r : vec) (V W : mat) (k : nat) (m : vec) (i : nat) : K :=
+    let x := Nat.mul 2 k in let p := S (Nat.mul 2 k) in
+    r i + (V i x * W 0 0 * (m 0 - r x) + V i x * W 0 1 * (m 1 - r p)
+           + V i p * W 1 0 * (m 0 - r x) + V i p * W 1 1 * (m 1 - r p)).
+
   (* parameters handed to np.random.multivariate_normal(vc, C + covmat) *)
   Definition dyne_rng_mean (r : vec) (k : nat) : vec := chop_vc r k.
   Definition dyne_rng_cov (V sig : mat) (k : nat) : mat := madd (chopC V k) sig.
@@ -226,16 +237,16 @@ Section Dyne.
   Definition sig_het : mat := diag2 k1 k1.
 
   (* GaussianModes.measure_dyne(covmat, [k]) with injected draw vm[0] = (d0, d1):
-     returns (new mean, new cov, rng mean, rng cov) *)
+     returns ((new mean, new cov), (rng mean, rng cov)) *)
   Definition g_measure_dyne (r : vec) (V sig : mat) (k : nat) (d0 d1 : K) :=
-    (dyne_mean r V sig k (vec2 d0 d1), dyne_cov V sig k, dyne_rng_mean r k, dyne_rng_cov V sig k).
+    ((dyne_mean r V sig k (vec2 d0 d1), dyne_cov V sig k), (dyne_rng_mean r k, dyne_rng_cov V sig k)).
 
   (* GaussianModes.post_select_homodyne(k, val, eps): vm = [val, normal(vc[1], sqrt(C[1][1]))];
      d1 is that injected draw; (vc[1], C[1][1]) are the parameters whose (mean, variance) go to
      np.random.normal *)
   Definition g_post_select_homodyne (r : vec) (V : mat) (k : nat) (val eps d1 : K) :=
-    (dyne_mean r V (sig_hom eps) k (vec2 val d1), dyne_cov V (sig_hom eps) k,
-     chop_vc r k 1, chopC V k 1 1).
+    ((dyne_mean r V (sig_hom eps) k (vec2 val d1), dyne_cov V (sig_hom eps) k),
+     (chop_vc r k 1, chopC V k 1 1)).
 
   (* GaussianModes.post_select_heterodyne(k, alpha): vm = 2.0 * [Re alpha, Im alpha] *)
   Definition two : K := k1 + k1.
